@@ -20,24 +20,25 @@ import (
 
 // Task is one gated goroutine.
 type Task struct {
-	ID     string
-	Proc   *Proc
-	kids   int
-	site   string
-	gate   chan struct{}
-	wantMu *sync.Mutex // parked on Lock(m)
-	parked bool
-	prio   int // PCT priority
-	free   bool
-	spin     int    // consecutive picks at the same site
+	ID       string
+	Proc     *Proc
+	kids     int
+	site     string
+	gate     chan struct{}
+	wantMu   *sync.Mutex // parked on Lock(m)
+	parked   bool
+	prio     int // PCT priority
+	free     bool
+	spin     int // consecutive picks at the same site
 	lastSite string
 }
 
 // World is one simulated execution. All fields are protected by mu, which is never held
 // across a blocking operation.
 type World struct {
-	conns []*Conn // every in-memory TCP connection end, for process death
-	links []*Link
+	temps   int     // temp files created so far (FsCreateTemp)
+	conns   []*Conn // every in-memory TCP connection end, for process death
+	links   []*Link
 	mu      sync.Mutex
 	Tape    *Tape
 	tasks   map[int64]*Task
